@@ -193,7 +193,7 @@ def _make_model(values):
 ARRAYS2 = {"v": [2.0, -5.0, 3.0], "m": [[1.0, 4.0], [6.0, 0.5]]}
 
 
-def _dsl_inplace(tree, values1, values2, t=2.0):
+def _dsl_inplace(tree, values1, values2, t=2.0, only=None):
     """build with values1, evaluate, then change the operand values *in place* (element equations and array
     members) to values2 / ARRAYS2 and evaluate again.  returns ('ok', v1, v2) or ('rejected', reason)"""
     try:
@@ -202,6 +202,10 @@ def _dsl_inplace(tree, values1, values2, t=2.0):
         x = model.converter("x")
         x.equation = eq
         v1 = x(t)
+        if only is not None:
+            for n in only:
+                elems[n].equation = values2[n]
+            return "ok", v1, x(t)
         for n in NAMES:
             elems[n].equation = values2[n]
         for i, val in enumerate(ARRAYS2["v"]):
@@ -346,6 +350,19 @@ def check_case(case):
             vs.append(Violation("stale-operand:%s" % E.op_name(tree),
                                 "expr %s: after changing the operand values in place to %s / arrays %s it evaluates to %r, python value %r"
                                 % (E.show(tree), v2s, ARRAYS2, res[2], w2)))
+        # ... and when only converter operands get a new equation (no constant is touched, the target is not re-assigned)
+        convs = [n for i, n in enumerate(NAMES) if i % 2 == 1]
+        if not vs and E.refs(tree) & set(convs):
+            mixed = {n: (v2s[n] if n in convs else v1s[n]) for n in NAMES}
+            try:
+                w3 = E.RefEval(mixed, time=2.0, dt=1.0, start=0.0, stop=4.0, arrays=ARRAYS).ev(tree)
+            except E.Fragile:
+                return info, vs
+            res = _dsl_inplace(tree, v1s, mixed, only=convs)
+            if res[0] == "ok" and not E.close(res[2], w3):
+                vs.append(Violation("stale-operand:converter:%s" % E.op_name(tree),
+                                    "expr %s: after giving the converter operands %r new equations (values now %s) it evaluates to %r, python value %r"
+                                    % (E.show(tree), convs, mixed, res[2], w3)))
     return info, vs
 
 
